@@ -219,7 +219,7 @@ def construct(prog: Program, cls: Class, kwargs: dict, interp_cls=EvalInterp, **
     return o
 
 
-def build_groups(prog: Program) -> tuple[Obj, dict]:
+def build_groups(prog: Program, order=("plain", "merged", "single")) -> tuple[Obj, dict]:
     lg = prog.cls("utils.label_group:LabelGroup")
     lmg = prog.cls("utils.label_group:LabelMergeGroup")
     scg = prog.cls("utils.segmentation_class:SegmentationClassGroups")
@@ -228,6 +228,7 @@ def build_groups(prog: Program) -> tuple[Obj, dict]:
         "merged": construct(prog, lmg, {"value_labels": [3, 4], "single_instance": False}),
         "single": construct(prog, lg, {"value_labels": 5, "single_instance": True}),
     }
+    groups = {k: groups[k] for k in order}
     o = construct(prog, scg, {"groups": dict(groups)})
     return o, groups
 
